@@ -199,7 +199,10 @@ class Constraints(object):
                                          k_genuine_vec[i],
                                          k_impostor_vec[i])
 
-    return triplets
+    # the indices found above refer to the array of labeled samples: map them
+    # back to the samples given by the caller
+    known_label_idx, = np.where(known_labels_mask)
+    return known_label_idx[triplets]
 
   def _pairs(self, n_constraints, same_label=True, max_iter=10,
              random_state=np.random):
